@@ -888,21 +888,26 @@ class Interp:
         return False
 
     def st_With(self, cx, fr, st):
+        mgrs = []
         for it in st.items:
             mgr = self.eval(cx, fr, it.context_expr)
             ent = mgr
             if hasattr(mgr, "meth___enter__"):
                 ent = mgr.meth___enter__(cx)
+            mgrs.append(mgr)
             if it.optional_vars is not None:
                 self.assign(cx, fr, it.optional_vars, ent)
         try:
             self.exec_block(cx, fr, st.body)
         finally:
-            for it in reversed(st.items):
-                mgr = self.eval(cx, fr, it.context_expr) if False else None
-        # __exit__ effects of trusted context managers (files) are modelled by their bindings' `close` on scope exit
-        for it in st.items:
-            pass
+            # __exit__ runs on normal and on exceptional exit (PathEnd/Infeasible are not python exits)
+            import sys as _sys
+
+            et = _sys.exc_info()[0]
+            if et is None or et in (PyRaise, _Return, _Break, _Continue):
+                for mgr in reversed(mgrs):
+                    if hasattr(mgr, "meth___exit__"):
+                        mgr.meth___exit__(cx)
 
     def st_FunctionDef(self, cx, fr, st):
         fr.env.set(st.name, Closure(st, fr.env, fr.modinfo, name=f"{fr.qual}.<locals>.{st.name}"))
@@ -1142,6 +1147,12 @@ class Interp:
         idx = self.eval_index(cx, fr, e.slice)
         if isinstance(obj, KwDict):
             obj = obj.d
+        if isinstance(obj, (SObj, SRef)) and not hasattr(obj, "py_getitem"):
+            mb = self.registry.method_binding(obj.cls, "__getitem__")
+            if mb is not None:
+                return mb(cx, obj, idx)
+            f = self.lookup_attr(cx, obj, "__getitem__")
+            return self.call_value(cx, fr, f, [idx], {})
         if isinstance(obj, (list, tuple, str)) and isinstance(idx, SInt):
             v = z3.simplify(idx.t)
             if z3.is_int_value(v):
